@@ -21,6 +21,7 @@ prop(
         "Asn text round trip; SmallAsnSet built from every sequence (with repeats) over {0,1,2,MAX} up to length 4 / 5 and random longer multisets, checked against BTreeSet, "
         "then union/intersection/difference/symmetric_difference on all pairs. A case signature is (law, family pair, length relation, nesting relation, length classes); "
         "distinct_nontrivial counts those classes, evaluations counts single law checks (a triple looked up in the comparison matrix is one evaluation)."
+        "Arbitrary is also fed structured inputs for collections: every sequence of 3-5 items over {0, 1, 2, MAX} in the two layouts arbitrary uses for collections, and a soup of such pieces. "
     ),
     assumptions=[
         "the address range of a prefix is computed in the harness from (family, address, length) in the family's own width; families never cover each other",
